@@ -1,0 +1,26 @@
+//go:build verif
+
+// Contracts for the verification machinery in /verif (comment-only; compiled only with -tags verif).
+
+package models
+
+// parsing a batch file yields a freshly allocated model or an error (JSON decoding itself is outside the subset)
+//@ func ParseCoreIndexFile
+//@   results f, err
+//@   ensures err == nil ==> f != nil && fresh(f)
+//@ func ParseCoreProofFile
+//@   results f, err
+//@   ensures err == nil ==> f != nil && fresh(f)
+//@ func ParseProvisionalIndexFile
+//@   results f, err
+//@   ensures err == nil ==> f != nil && fresh(f)
+//@ func ParseProvisionalProofFile
+//@   results f, err
+//@   ensures err == nil ==> f != nil && fresh(f)
+//@ func ParseChunkFile
+//@   results f, err
+//@   ensures err == nil ==> f != nil && fresh(f)
+//
+//@ func (*SortedOperations).Size
+//@   requires o != nil
+//@   ensures result == len(o.Create) + len(o.Recover) + len(o.Deactivate) + len(o.Update)
